@@ -645,6 +645,11 @@ func main() {
 		nNoRec = 5000
 	}
 	runNoRec(r, NewFront(), nNoRec)
+	if toolsErr == nil {
+		runIOProbes(r, NewFront(), tools)
+	} else {
+		runIOProbes(r, NewFront(), nil)
+	}
 
 	nPanic := 0
 	PanicSources.Range(func(k, v interface{}) bool {
